@@ -338,6 +338,39 @@ def runHttp (args : List String) : String :=
     | some b => "ok " ++ hexOfBytes b
   | _ => "bad-op"
 
+/-! ### C03: `frame build|decode|mask|closepayload …` (the frame codec on its own) -/
+
+/-- decode a whole byte string as a sequence of client frames (`fuel` bounds the loop) -/
+def decodeAll : Nat → Bytes → Option (List Spec.Decoded)
+  | 0, bs => if bs = [] then some [] else none
+  | fuel + 1, bs =>
+    if bs = [] then some []
+    else
+      match Spec.decodeClientFrame bs with
+      | none => none
+      | some (d, rest) => (decodeAll fuel rest).map (d :: ·)
+
+def showDecoded (d : Spec.Decoded) : String :=
+  toString d.fin ++ toString d.rsv1 ++ toString d.rsv2 ++ toString d.rsv3 ++ ":" ++ toString d.opcode ++ ":" ++
+    hexOfBytes d.key ++ ":" ++ hexOfBytes d.payload
+
+def bitAt (s : String) (i : Nat) : Nat := if (s.toList.getD i '0') == '1' then 1 else 0
+
+def runFrame (args : List String) : String :=
+  match args with
+  | ["build", op, bits, pl, key] =>
+    match Frame.build (natOf op) (hexD pl) (hexD key) (bitAt bits 0) (bitAt bits 1) (bitAt bits 2) (bitAt bits 3) with
+    | some b => hexOfBytes b
+    | none => "FrameBuildError"
+  | ["decode", hx] =>
+    match decodeAll (hexD hx).length (hexD hx) with
+    | none => "invalid"
+    | some ds => "ok " ++ " ".intercalate (ds.map showDecoded)
+  | ["mask", key, data] => hexOfBytes (maskPayload (hexD key) (hexD data))
+  | ["closepayload", code, reason] =>
+    hexOfBytes (buildClosePayload (if code = "N" then none else some (natOf code)) (hexD reason))
+  | _ => "bad-op"
+
 def handle (line : String) : String :=
   if line.startsWith "core " then runCore (line.drop 5).toString
   else if line.startsWith "persist " then runPersist (line.drop 8).toString
@@ -346,6 +379,7 @@ def handle (line : String) : String :=
   else
     match line.splitOn " " with
     | "utf8" :: args => runUtf8 args
+    | "frame" :: args => runFrame args
     | "http" :: args => runHttp args
     | _ => "bad-op"
 
